@@ -40,7 +40,7 @@ theorem attrNameBad_lt (c : UInt8) (h : attrNameBad c = false) : c < 0x80 := by
 
 theorem brace_not_tagNameByte : tagNameByte 0x7b = false := by decide
 
-theorem Hole.lt_of_ne {text : Bytes} {n : Nat} (H : Hole text n) {i : Nat} (hi : i ≤ n) {c : UInt8}
+theorem Hole.lt_of_ne {text : Bytes} {lo n : Nat} (H : Hole text lo n) {i : Nat} (hi : i ≤ n) {c : UInt8}
     (hc : text[i]? = some c) (hne : c ≠ 0x7b) : i < n := by
   rcases Nat.lt_or_ge i n with h | h
   · exact h
@@ -51,7 +51,7 @@ theorem Hole.lt_of_ne {text : Bytes} {n : Nat} (H : Hole text n) {i : Nat} (hi :
 
 /-! ## scanTag -/
 
-theorem scanTagLoop_sim {text : Bytes} {n : Nat} (H : Hole text n) (a : Nat) :
+theorem scanTagLoop_sim {text : Bytes} {lo n : Nat} (H : Hole text lo n) (a : Nat) :
     ∀ fuel p, a ≤ p → p ≤ n → n - p < fuel →
       rs text p = .tagName (((text.take p).drop a).map lower) →
       (∀ c ∈ (text.take p).drop a, c < 0x80) →
@@ -105,7 +105,7 @@ theorem scanTagLoop_sim {text : Bytes} {n : Nat} (H : Hole text n) (a : Nat) :
 
 /-! ## scanAttribute: the name loop -/
 
-theorem attrNameLoop_sim {text : Bytes} {n : Nat} (H : Hole text n) (U : Unicode) (tag : Bytes) (a : Nat) :
+theorem attrNameLoop_sim {text : Bytes} {lo n : Nat} (H : Hole text lo n) (U : Unicode) (tag : Bytes) (a : Nat) :
     ∀ fuel p, a ≤ p → p ≤ n → n - p < fuel →
       rs text p = .attrName tag (((text.take p).drop a).map lower) →
       (∀ c ∈ (text.take p).drop a, c < 0x80) →
@@ -195,7 +195,7 @@ theorem attrNameLoop_sim {text : Bytes} {n : Nat} (H : Hole text n) (U : Unicode
 
 theorem brace_not_ws : ws 0x7b = false := by decide
 
-theorem attrEqLoop_sim {text : Bytes} {n : Nat} (H : Hole text n) (tag nm : Bytes) :
+theorem attrEqLoop_sim {text : Bytes} {lo n : Nat} (H : Hole text lo n) (tag nm : Bytes) :
     ∀ fuel p, p ≤ n → n - p < fuel →
       (rs text p = .attrName tag nm ∨ rs text p = .afterAttrName tag nm) →
       ∃ b r, attrEqLoopP text fuel p = (b, r) ∧ p ≤ r ∧ r ≤ n ∧
@@ -249,7 +249,7 @@ theorem attrEqLoop_sim {text : Bytes} {n : Nat} (H : Hole text n) (tag nm : Byte
         rw [hc] at hc'; cases hc'
         exact ⟨h1, by simpa using h2⟩
 
-theorem attrQuoteLoop_sim {text : Bytes} {n : Nat} (H : Hole text n) (tag nm : Bytes) :
+theorem attrQuoteLoop_sim {text : Bytes} {lo n : Nat} (H : Hole text lo n) (tag nm : Bytes) :
     ∀ fuel p, p ≤ n → n - p < fuel → rs text p = .beforeAttrValue tag nm →
       ∃ b t, attrQuoteLoopP text fuel p = (b, t) ∧ p ≤ t ∧ t ≤ n ∧
         rs text t = .beforeAttrValue tag nm ∧
@@ -297,7 +297,7 @@ theorem attrNameLoop_first (U : Unicode) (text : Bytes) (fuel pos : Nat) {c : UI
     intro h; rcases h with h | h | h | h | h | h <;> simp_all [attrNameBad]
   simp [attrNameLoopP, hc, h4, hsp, hb, hge, h7]
 
-theorem scanAttr_sim {text : Bytes} {n : Nat} (H : Hole text n) (U : Unicode) (tag : Bytes) {pos : Nat}
+theorem scanAttr_sim {text : Bytes} {lo n : Nat} (H : Hole text lo n) (U : Unicode) (tag : Bytes) {pos : Nat}
     (hpos : pos < n) {c : UInt8} (hc : text[pos]? = some c) (hs : nameStart c)
     (hr : rs text (pos + 1) = .attrName tag [lower c]) :
     ∃ attr next, scanAttributeP U text pos = (attr, next) ∧ pos < next ∧ next ≤ n ∧
